@@ -30,6 +30,10 @@ def setup_worker():
     build.init()
 
 
+def enumerate_cases(tier):
+    yield from c01.origin_rows(["glyf_colr_1"])
+
+
 def cases(tier):
     return st.one_of(
         c01.vector_case(COLR1, tier, lib_always=True, place_classes=CLASSES, lib_prob=0.85, p_grad=0.2),
